@@ -15,10 +15,13 @@ mod iterdrv;
 mod mapw;
 mod mapw_entry;
 mod mapw_more;
+mod par_world;
 mod plan;
 mod profiles;
 mod rng;
 mod runner;
+mod serde_world;
+mod serdeops;
 mod scenario;
 mod setw;
 mod state;
